@@ -253,6 +253,15 @@ theorem c11_x_indexer :
       "TokenizerTypeExists=tokenizer.NewExistsTokenizer()"] ∧
     indexConds = ["!has", "tokenType.Title != \"\"", "value != nil"] := ⟨rfl, by decide⟩
 
+/-- proxy -> store: all four store lists are dialed by the same call shape (no per-list options), and the one dial carries
+the metadata-forwarding interceptor - so the query language the client chose (`use-seq-ql`) reaches every store, and the
+store parses the query text with the parser the proxy used -/
+theorem c11_x_store_dials :
+    storeDialCalls = ["appendClients(ctx, clients, config.HotStores.Shards)", "appendClients(ctx, clients, config.HotReadStores.Shards)",
+      "appendClients(ctx, clients, config.WriteStores.Shards)", "appendClients(ctx, clients, config.ReadStores.Shards)"] ∧
+    storeDialOptions = ["grpc.WithTransportCredentials", "grpc.WithStatsHandler", "grpc.WithKeepaliveParams", "grpc.WithConnectParams",
+      "grpc.WithUnaryInterceptor(grpcutil.PassMetadataUnaryClientInterceptor())"] := ⟨rfl, rfl⟩
+
 /-- `convertMappingWithMultipleTypes`: `Main` is assigned exactly where the title is empty (with the field name as its
 title), titled entries get their own mapping key, `All` is the list in source order -/
 theorem c11_x_main_type :
